@@ -79,7 +79,7 @@ class Catalog:
         self.profile = profile
         self.vendor, self.hw, self.prefix, self.exit = check_profile(profile)
         cfgp = os.path.join(ctx.scratch, "cases_%s.cfg" % profile)
-        px = {"undo": "undox", "no": "notify", "-": "-x", "delete": "deleted", "remove": "removex"}[self.prefix]
+        self.prefixx = px = {"undo": "undox", "no": "notify", "-": "-x", "delete": "deleted", "remove": "removex"}[self.prefix]
         src = open(os.path.join(core.SPEC, "mc", "MC_Cases.cfg")).read().replace('Prefix = "undo"', 'Prefix = "%s"' % self.prefix).replace(
             '"undox"', '"%s"' % px)
         open(cfgp, "w").write(src)
